@@ -1,6 +1,8 @@
 import Splipy.Driver.Common
 import Splipy.Model.IOTokens
 import Splipy.Model.IOMesh
+import Splipy.Model.IOPrims
+import Splipy.Model.IOObjects
 
 /-!
 Protocol ops of property C19 (everything at `K = ℚ`).
@@ -124,6 +126,42 @@ def handle : Handler
       return .list [.num L.width, .num L.height, .num L.scale,
         .list (written.map encPts), .list (back.map encPts),
         Val.ofRats [L.scale, L.ox - L.scale * L.cx, L.oy - L.scale * L.cy - 2 * L.margin]]
+  | "g2_prim", [av, tolv, tv] => some <| Id.run do
+      -- aux = [[pi, 1/sqrt2, sqrt2], [cos th, sin th, cos ph, sin ph], lam, |z_axis|]
+      let some al := av.toList? | return bad
+      let [kv, nv, lv, zv] := al | return bad
+      let some [kp, kw, ks] := kv.toRats? | return bad
+      let some [ct, st, cp, sp] := nv.toRats? | return bad
+      let some lam := lv.toRat? | return bad
+      let some zn := zv.toRat? | return bad
+      let some tol := tolv.toRat? | return bad
+      let some toks := decToks tv | return bad
+      let aux : PrimAux ℚ := { k := ⟨kp, kw, ks⟩, a := ⟨ct, st, cp, sp⟩, lam := lam, znorm := zn }
+      return ofExcept (fun r => encodeObj r.1) (g2ReadPrim aux tol toks)
+  | "g2_write_obj", [tolv, ovs] => some <| Id.run do
+      let some tol := tolv.toRat? | return bad
+      let some ol := ovs.toList? | return bad
+      let some os := ol.mapM decodeObj | return bad
+      if os.any (fun o => o.pardim = 0 ∨ 3 < o.pardim) then return bad
+      match os.mapM (g2WriteObj tol) with
+      | .error e => return e.toVal
+      | .ok ts => return .list (ts.flatten.map encTok)
+  | "svg_roundtrip2", [wv, hv, mv, tolv, cv] => some <| Id.run do
+      let some W := wv.toRat? | return bad
+      let some H := hv.toRat? | return bad
+      let some m := mv.toRat? | return bad
+      let some tol := tolv.toRat? | return bad
+      let some cl := cv.toList? | return bad
+      let some curves := cl.mapM decodeObj | return bad
+      let some bb := svgBBox (curves.flatMap planarPts) | return bad
+      let L := svgLayout W H m bb
+      match curves.mapM (svgPath tol L) with
+      | .error e => return e.toVal
+      | .ok written =>
+        let back := written.map fun b => b.map (svgReadPt L.height)
+        return .list [.num L.width, .num L.height, .num L.scale,
+          .list (written.map encPts), .list (back.map encPts),
+          Val.ofRats [L.scale, L.ox - L.scale * L.cx, L.oy - L.scale * L.cy - 2 * L.margin]]
   | _, _ => none
 
 end Splipy.Driver.C19
